@@ -96,7 +96,7 @@ S(id="OSVLO.history.native", props=["C19"], spec="native/osvlo_enum.c", mode="N"
   functions=["OS_* macros", "_OS_expand_memory", "_OS_add_string_function", "VLO_* macros", "_VLO_expand_memory", "_VLO_tailor_function", "_VLO_add_string_function"],
   what="history-level statements: finished objects of an object stack never move or change, the top object and a VLO hold exactly the bytes appended minus those shortened, wherever they are reallocated")
 S(id="A.fail.native", props=["C17"], spec="native/alloc_fail_enum.c", mode="N", link=["allocate.c", "hashtab.c", "objstack.c", "vlobject.c", "yaep.c"], harness="main", timeout=3000,
-  bound="every k up to the last memory request of: yaep_create_grammar, yaep_parse_grammar, yaep_read_grammar, yaep_parse on three short inputs/settings of one expression grammar, on a 61-token sentence, on a 61-token input with syntax errors (all parses), and on an ambiguous cost grammar with all parses and cost flag (about 1000 failure points); fresh memory is filled with junk",
+  bound="every k up to the last memory request of: yaep_create_grammar, yaep_parse_grammar, yaep_read_grammar, yaep_parse on three short inputs/settings of one expression grammar, on a 61-token sentence, on a 61-token input with syntax errors (all parses), and on an ambiguous cost grammar with all parses and with one parse under the cost flag (about 1200 failure points); after the failing call the settings of the object are what the caller made them; fresh memory is filled with junk",
   functions=["yaep_create_grammar", "yaep_parse_grammar", "yaep_read_grammar", "yaep_parse", "yaep_free_grammar"],
   what="the k-th memory request of the call fails (libc allocator interposed), for every k: NULL / YAEP_NO_MEMORY, no crash, the object is still usable and can be freed, another object is unaffected")
 S(id="D.diff.native", props=["C11"], spec="native/desc_diff_enum.c", mode="N", sanitize="undefined", link=["allocate.c", "hashtab.c", "objstack.c", "vlobject.c", "yaep.c"], harness="main", timeout=3600,
